@@ -298,6 +298,67 @@ func init() {
 		x.InputID = hashBytes([]byte{byte(L), b0, byte(hdr), 0x14})
 		fs.flush(x, n)
 	}
+	// a search may use the caller's own buffered reader; that reader stays the caller's: other searches, whatever
+	// reader they are given, neither move it nor feed it another stream
+	hAcross := func(x *mc.Exec) {
+		mk := func(pre int, hdr int, tail int) []byte {
+			return append(bytes.Repeat([]byte{'p'}, pre), c12Tail(hdr, 0, tail)...)
+		}
+		streams := [][]byte{mk(0, 0, 0), mk(0, 1, 0), mk(5, 0, 2), mk(40, 1, 0), mk(300, 0, 0), bytes.Repeat([]byte("no header here. "), 8)}
+		a, b := streams[x.All("first-stream", len(streams))], streams[x.All("second-stream", len(streams))]
+		mid := x.All("second-search-through", 3)
+		fs := newFailSet("tiff.across-searches")
+		pristine()
+		type res struct {
+			h    meta.ExifHeader
+			err  error
+			rest []byte
+		}
+		search := func(r io.Reader) (meta.ExifHeader, error) { return tiff.ScanTiffHeader(r, imagetype.ImageUnknown) }
+		// control: stream a alone
+		var ctl res
+		{
+			br := bufio.NewReaderSize(bytes.NewReader(a), 4096)
+			ctl.h, ctl.err = search(br)
+			ctl.rest, _ = io.ReadAll(br)
+		}
+		var hbCtl meta.ExifHeader
+		var ebCtl error
+		hbCtl, ebCtl = search(struct{ io.Reader }{bytes.NewReader(b)})
+		pristine()
+		var got res
+		pi := mc.Guard(func() {
+			br := bufio.NewReaderSize(bytes.NewReader(a), 4096)
+			got.h, got.err = search(br)
+			var hb meta.ExifHeader
+			var eb error
+			switch mid {
+			case 0:
+				hb, eb = search(struct{ io.Reader }{bytes.NewReader(b)})
+			case 1:
+				hb, eb = search(bytes.NewReader(b))
+			default:
+				hb, eb = search(bufio.NewReaderSize(bytes.NewReader(b), 64))
+			}
+			if hb != hbCtl || (eb == nil) != (ebCtl == nil) {
+				fs.add("second-search-differs-after-a-first-one", fmt.Sprintf("second stream %q...: %+v err=%v ; alone %+v err=%v", b[:16], hb, eb, hbCtl, ebCtl))
+			}
+			got.rest, _ = io.ReadAll(br)
+		})
+		if pi != nil {
+			fs.add(pi.Signature(), pi.Value)
+		} else {
+			if got.h != ctl.h || (got.err == nil) != (ctl.err == nil) {
+				fs.add("first-search-differs", fmt.Sprintf("%+v err=%v ; alone %+v err=%v", got.h, got.err, ctl.h, ctl.err))
+			}
+			if !bytes.Equal(got.rest, ctl.rest) {
+				fs.add("callers-reader-disturbed-by-a-later-search", fmt.Sprintf("after a search on another stream the caller's reader yields %d bytes starting %q ; without that search %d bytes starting %q", len(got.rest), truncStr(string(got.rest), 24), len(ctl.rest), truncStr(string(ctl.rest), 24)))
+			}
+		}
+		x.InputID = hashBytes(append(append([]byte{byte(mid)}, a...), b...))
+		x.Outcome = fmt.Sprint(ctl.err == nil, ebCtl == nil)
+		fs.flush(x, 1)
+	}
 	register(&mc.Check{
 		Property: "C12",
 		Spaces: func(tier string) []mc.Space {
@@ -314,6 +375,8 @@ func init() {
 					Rule: "the canonical header of every other supported format, cut at 4..24 bytes, plus a gap of 0/1/4/11 bytes, in front of the TIFF block (the sniffers that look at the first window must not disturb the search)"},
 				{Name: "all-byte-prefixes", H: hBytes, NoLevels: true,
 					Rule: "every byte string of length 1, 2 and 3 (all 2^24) in front of each header: offset, byte order, first-IFD offset and the stream position after the search"},
+				{Name: "callers-reader-across-searches", H: hAcross, NoLevels: true,
+					Rule: "ordered pairs of 6 streams: a search through the caller's bufio.Reader on the first, then a search on the second (plain reader, bytes.Reader, small bufio.Reader), then the rest of the caller's reader is read: both answers and the rest equal those of each stream alone"},
 				{Name: "window-boundaries", H: hLong, NoLevels: true,
 					Rule: "prefix lengths 4060..4139 and 8156..8235 (bufio window boundaries minus the 32-byte peek) x 10 repeating partial-signature patterns x header x tails"},
 			}
